@@ -722,6 +722,29 @@ pub fn c08(ctx: &mut Ctx) {
 
 pub fn c09(ctx: &mut Ctx) {
     crate::scen_core::c09(ctx);
+    // "difficulties outside 20..=50 are rejected by configuration validation": the whole
+    // configuration validation, whatever security level the caller asks for
+    if ctx.mine(2_500_000) {
+        let loaded = load_all(ctx);
+        for l in loaded.iter().take(if ctx.is_quick() { 4 } else { 25 }) {
+            let cfg = &l.proof["config"];
+            let c1: u64 = bu(&cfg["traces"]["original"]["n_columns"]).unwrap().try_into().unwrap();
+            let c2: u64 = bu(&cfg["traces"]["interaction"]["n_columns"]).unwrap().try_into().unwrap();
+            for n_bits in 0u64..=255 {
+                for sec in [0u64, 20, 60] {
+                    let mut c = cfg.clone();
+                    c["proof_of_work"]["n_bits"] = json!(n_bits);
+                    let Some(o) = config_validate(&c, Felt::from(sec), c1, c2) else { continue };
+                    ctx.stats.evaluations += 1;
+                    if !(20..=50).contains(&n_bits) && o.is_accept() {
+                        let rep = replay_envelope("C09", "c09.config", &ctx.variant, json!({"call": "config", "config": cfg, "faults": [{"op": "Set", "path": "config.proof_of_work.n_bits", "value": n_bits.to_string()}], "security": sec, "cols": [c1, c2], "expected_outcome": o.describe()}));
+                        ctx.violation("C09|config-bounds|stark-config", &format!("{}: StarkConfig::validate accepts proof-of-work difficulty {n_bits} (requested security {sec})", l.file), rep);
+                    }
+                }
+            }
+        }
+        ctx.stats.state("stark-config|pow-bounds".into());
+    }
     let scenario = "c09.recorded";
     let n_toy = if ctx.is_quick() { 4 } else { 40 };
     let bases = scen_proof::collect_bases(ctx, scenario, n_toy, 0);
